@@ -489,7 +489,7 @@ func checkLine(t *rapid.T, p *Program, err error, want int, cls string, det func
 // return no output (C05), and name the line of the contentOf tag in the layout, shifting with the layout (C15).
 func pageLayoutRun(t *rapid.T) {
 	fill := func() *Program {
-		return genProgram(t, genOpts{noise: true, maxPieces: 3, noPartials: true})
+		return genProgram(t, genOpts{noise: true, maxPieces: 3, noPartials: true, noContent: true})
 	}
 	f1, f2 := fill(), fill()
 	natural := uni(t, "plnatural", 3) == 0
